@@ -113,7 +113,12 @@ type FuncContract struct {
 	Line       int
 }
 
+type GhostField struct {
+	Struct, Name, Type string
+}
+
 type PkgContracts struct {
+	GhostFields []GhostField
 	PkgDir  string // directory relative to /repo
 	Macros  map[string]*Macro
 	Pools   map[string]*Macro
@@ -125,7 +130,7 @@ type PkgContracts struct {
 }
 
 var clauseKeywords = map[string]bool{
-	"pred": true, "spec": true, "pool": true, "ufun": true, "axiom": true, "lemma": true, "func": true, "extern": true,
+	"pred": true, "spec": true, "pool": true, "ghostfield": true, "ufun": true, "axiom": true, "lemma": true, "func": true, "extern": true,
 	"props": true, "mode": true, "requires": true, "ensures": true, "modifies": true, "loop": true,
 	"assume": true, "trusted": true, "ghost": true, "allow-panic": true, "note": true, "callsite": true, "assert": true,
 }
@@ -315,6 +320,13 @@ func parseContractFile(path string, pc *PkgContracts) error {
 			} else {
 				pc.Macros[name] = m
 			}
+		case "ghostfield":
+			// ghostfield pkg.Type name type : specification-only field of every object of that struct type
+			f := strings.Fields(c.text)
+			if len(f) != 3 {
+				return fail(c, "ghostfield needs `pkg.Type name type`")
+			}
+			pc.GhostFields = append(pc.GhostFields, GhostField{Struct: f[0], Name: f[1], Type: f[2]})
 		case "ufun":
 			text := c.text
 			var reads []string
